@@ -87,6 +87,10 @@ func main() {
 		fatal(err)
 	}
 	sites := analyseNondet(w)
+	gmods, err := analyseGenesis(w)
+	if err != nil {
+		fatal(err)
+	}
 	tAn := time.Since(t1)
 
 	if err := os.MkdirAll(*out, 0o755); err != nil {
@@ -96,6 +100,7 @@ func main() {
 		"handlers.v": renderHandlers(hs, tmsgs),
 		"perms.v":    renderPerms(perms),
 		"nondet.v":   renderNondet(sites),
+		"genesis.v":  renderGenesis(gmods),
 	}
 	names := make([]string, 0, len(files))
 	for n := range files {
@@ -108,10 +113,11 @@ func main() {
 			fatal(err)
 		}
 	}
-	fmt.Printf("translator: %d handlers, %d ticket msgs, %d macc perms, %d ndsites; analysis %.2fs; total %.1fs; wrote %s/{%s}\n",
-		len(hs), len(tmsgs), len(perms.maccPerms), len(sites), tAn.Seconds(), time.Since(t0).Seconds(), *out, strings.Join(names, ","))
+	fmt.Printf("translator: %d handlers, %d ticket msgs, %d macc perms, %d ndsites, %d genesis modules; analysis %.2fs; total %.1fs; wrote %s/{%s}\n",
+		len(hs), len(tmsgs), len(perms.maccPerms), len(sites), len(gmods), tAn.Seconds(), time.Since(t0).Seconds(), *out, strings.Join(names, ","))
 	if *verbose {
 		printSummary(hs, tmsgs, perms, sites)
+		printGenesisSummary(gmods)
 		fmt.Println("== calls reached from handlers that were NOT followed")
 		for _, u := range w.unresolved {
 			fmt.Println("  " + u)
@@ -127,7 +133,7 @@ var outDir string
 func fatal(err error) {
 	fmt.Fprintln(os.Stderr, "translator: error:", err)
 	if outDir != "" {
-		for _, n := range []string{"handlers.v", "perms.v", "nondet.v"} {
+		for _, n := range []string{"handlers.v", "perms.v", "nondet.v", "genesis.v"} {
 			os.Remove(filepath.Join(outDir, n))
 		}
 		fmt.Fprintln(os.Stderr, "translator: removed stale tables from", outDir)
